@@ -343,6 +343,105 @@ def f(self, k):
 ]
 
 
+# module-level cases: the second version extracts a helper (not in the first); compared after helper inlining
+MODULE_SAME = [
+    ("straight-line helper", """
+class A:
+    def f(self, other):
+        self.frequencies = self.frequencies + other.frequencies
+        self.errors2 = self.errors2 + other.errors2
+        return self
+""", """
+class A:
+    def f(self, other):
+        self._add(other)
+        return self
+
+    def _add(self, other):
+        self.frequencies = self.frequencies + other.frequencies
+        self.errors2 = self.errors2 + other.errors2
+"""),
+    ("helper with early returns, used as a value", """
+def f(x):
+    if x.dtype in OK:
+        pass
+    elif is_int(x):
+        x = x.astype(int)
+    else:
+        raise ValueError("no")
+    return x
+""", """
+def f(x):
+    x = _conv(x)
+    return x
+
+
+def _conv(x):
+    if x.dtype in OK:
+        return x
+    if is_int(x):
+        return x.astype(int)
+    raise ValueError("no")
+"""),
+]
+MODULE_DIFFERENT = [
+    ("helper whose early return skips a later statement", """
+def f(self, axis):
+    if axis == 0:
+        d = self.a.sum(axis=0)
+    else:
+        d = self.a.sum(axis=1)
+    d[d == 0] = 1
+    return self.a / d
+""", """
+def f(self, axis):
+    d = _sums(self, axis)
+    return self.a / d
+
+
+def _sums(self, axis):
+    if axis == 0:
+        return self.a.sum(axis=0)
+    d = self.a.sum(axis=1)
+    d[d == 0] = 1
+    return d
+"""),
+    ("helper that evaluates its argument once where the original evaluated twice", """
+def f(self):
+    return self.g() + self.g()
+""", """
+def f(self):
+    return _twice(self.g())
+
+
+def _twice(x):
+    return x + x
+"""),
+    ("helper with a different default", """
+def f(self, a):
+    return self.h(a, 1)
+""", """
+def f(self, a):
+    return _call(self, a)
+
+
+def _call(self, a, k=2):
+    return self.h(a, k)
+"""),
+]
+
+
+def fp_module(src, name="f"):
+    from sa.inline import inline_new_helpers
+    tree = ast.parse(textwrap.dedent(src))
+    known = {"f", "A.f", "A"}
+    inline_new_helpers(tree, known)
+    canon.structural_normal_form(tree)
+    for q, fn in canon.functions_of(tree):
+        if q.split("#")[0].split(".")[-1] == name:
+            return canon.fingerprint(fn, sigs={})
+
+
 def fp(src):
     fn = ast.parse(textwrap.dedent(src)).body[0]
     return canon.fingerprint(fn, sigs={})
@@ -358,7 +457,15 @@ def main():
         if fp(a) == fp(b):
             bad += 1
             print(f"FAIL (UNSOUND - behaviour differs but fingerprints agree): {name}")
-    print(f"fingerprint cases: {len(SAME)} equal pairs, {len(DIFFERENT)} different pairs, {bad} failures")
+    for name, a, b in MODULE_SAME:
+        if fp_module(a) != fp_module(b):
+            bad += 1
+            print(f"FAIL (should be equal after helper inlining): {name}")
+    for name, a, b in MODULE_DIFFERENT:
+        if fp_module(a) == fp_module(b):
+            bad += 1
+            print(f"FAIL (UNSOUND after helper inlining): {name}")
+    print(f"fingerprint cases: {len(SAME) + len(MODULE_SAME)} equal pairs, {len(DIFFERENT) + len(MODULE_DIFFERENT)} different pairs, {bad} failures")
     return 1 if bad else 0
 
 
